@@ -685,6 +685,9 @@ func (g *c02Gen) newBeh(text bool) *Beh {
 	}
 	b.Stop = g.p(0.4)
 	b.Zero = g.p(0.3)
+	if !g.calm() && g.p(0.05) {
+		g.skipAfterWriting(b)
+	}
 	return b
 }
 
@@ -1442,6 +1445,25 @@ var c02OptTable = func() []c02Opt {
 	return t
 }()
 
+// skipAfterWriting: the function writes a few tokens (container openers included) and THEN returns errors.ErrUnsupported
+// ("skip me"), so that the next function of the chain or the default arshaler continues — inside whatever was left open.
+func (g *c02Gen) skipAfterWriting(b *Beh) {
+	seqs := [][]Op{
+		{{Kind: opTok, Arg: tokBeginArray}},
+		{{Kind: opTok, Arg: tokBeginObject}},
+		{{Kind: opTok, Arg: tokBeginArray}, {Kind: opTok, Arg: tokBeginArray}},
+		{{Kind: opTok, Arg: tokBeginObject}, {Kind: opName}},
+		{{Kind: opTok, Arg: tokBeginArray}, {Kind: opOneValue, Arg: 0}},
+		{{Kind: opOneValue, Arg: 0}},
+		{{Kind: opTok, Arg: tokBeginObject}, {Kind: opName}, {Kind: opTok, Arg: tokBeginArray}},
+		{{Kind: opTok, Arg: tokBeginArray}, {Kind: opTok, Arg: tokEndArray}, {Kind: opTok, Arg: tokBeginArray}},
+	}
+	b.Script = seqs[g.n(len(seqs))]
+	b.Ret = []int{retUnsupported, retUnsupported, retWrapped}[g.n(3)]
+	b.Early, b.Stop, b.Skip, b.NilOut = false, false, 0, false
+	g.hit("script:write-tokens-then-return-ErrUnsupported")
+}
+
 func c02Funcs[T any](g *c02Gen, text bool) *jsonv2.Marshalers {
 	b := g.newBeh(false)
 	name := reflect.TypeFor[T]().String()
@@ -1450,7 +1472,9 @@ func c02Funcs[T any](g *c02Gen, text bool) *jsonv2.Marshalers {
 		return jsonv2.MarshalFunc(func(T) ([]byte, error) { return b.bytesResult(defaultBeh) })
 	}
 	g.hit("marshalers:MarshalToFunc[" + name + "]")
-	if g.p(0.6) {
+	if g.p(0.3) {
+		g.skipAfterWriting(b)
+	} else if g.p(0.6) {
 		b.Skip = g.n(6)
 		if b.Skip > 0 {
 			g.cs.counters = true
@@ -1459,11 +1483,44 @@ func c02Funcs[T any](g *c02Gen, text bool) *jsonv2.Marshalers {
 	return jsonv2.MarshalToFunc(func(enc *jsontext.Encoder, _ T) error { return b.run(enc) })
 }
 
+// c02FuncIndex: which of the marshal-function types below applies to values of type t (or to its elements), -1 if none.
+func c02FuncIndex(t reflect.Type) int {
+	tab := []reflect.Type{nil, reflect.TypeFor[int](), reflect.TypeFor[string](), reflect.TypeFor[bool](), reflect.TypeFor[float64](), reflect.TypeFor[[]int](),
+		reflect.TypeFor[map[string]int](), reflect.TypeFor[UJ](), reflect.TypeFor[UT](), reflect.TypeFor[UTo](), c02TimeType, c02RawType, c02BytesTyp,
+		reflect.TypeFor[IfaceJ](), reflect.TypeFor[*int](), reflect.TypeFor[*UJP](), reflect.TypeFor[UStr]()}
+	for hop := 0; hop < 3 && t != nil; hop++ {
+		for i, x := range tab {
+			if x == t {
+				return i
+			}
+		}
+		switch t.Kind() {
+		case reflect.Slice, reflect.Array, reflect.Pointer, reflect.Map:
+			t = t.Elem()
+		default:
+			t = nil
+		}
+	}
+	return -1
+}
+
 func (g *c02Gen) marshalers() *jsonv2.Marshalers {
 	var ms []*jsonv2.Marshalers
+	prev := -1
 	for i, n := 0, 1+g.n(3); i < n; i++ {
 		var m *jsonv2.Marshalers
-		switch g.n(17) {
+		pick := g.n(17)
+		if x := c02FuncIndex(g.cs.typ); g.p(0.45) { // a function that is actually reached: for the case's own type, or for `any`
+			pick = 0
+			if x >= 0 && g.p(0.7) {
+				pick = x
+			}
+		}
+		if prev >= 0 && g.p(0.35) { // chains: a second function for the same type continues where the first one skipped
+			pick = prev
+		}
+		prev = pick
+		switch pick {
 		case 0:
 			m = c02Funcs[any](g, false)
 		case 1:
@@ -2058,18 +2115,6 @@ func c02Judge(c *Ctx, cs *c02Case, runs []c02Run, hits map[string]int64, pend *[
 				d["panic"] = fmt.Sprint(run.pan)
 				c.Violate("panic-namespace-after-option-change", run.ep, run.out, d)
 				hits["result:panic-namespace-after-option-change"]++
-				continue
-			}
-			if run.tr.DupToggled && strings.Contains(run.stack, "copyQuotedBuffer") && strings.Contains(run.stack, "wrapSyntacticError") {
-				// a DIFFERENT defect (D10): a string token at a name position is rejected with errInvalidNamespace by
-				// Tokens.appendString() AFTER Names.ReplaceLastQuotedOffset(pos) was already executed (the earlier isValidNamespace
-				// test is skipped while AllowDuplicateNames is on); the offset points into bytes that were never committed to
-				// e.Buf, and computing the error's JSON pointer slices out of range.  Needs a namespace invalidated by a failed
-				// strict nested call and duplicates allowed again afterwards, i.e. a per-call toggle of AllowDuplicateNames.
-				d := c02Describe(cs, run)
-				d["panic"] = fmt.Sprint(run.pan)
-				c.Violate("panic-name-offset-on-rejected-token", run.ep, run.out, d)
-				hits["result:panic-name-offset-on-rejected-token"]++
 				continue
 			}
 			if run.encDup && !run.callDup && strings.Contains(run.stack, "objectNamespaceStack.Last") {
